@@ -197,10 +197,64 @@ func judgeConv(env *Env, r *vx.Run, mode string, c convCase, blocks []*types.Blo
 			r.Seen("distinct", fmt.Sprintf("n=%d refused=%d kind=%d lastseq=%d", n, len(notes), c.Kind, lastSeq(t)))
 		}
 		w := SeqReplay(t)
+		if w != "" || !restart {
+			t.Close()
+			t.Forget()
+			if w != "" {
+				return "seqlog:" + vx.Norm(w, 40), desc + ": " + w
+			}
+			return "", ""
+		}
+		// the log must also survive a restart (start-up inspects the sequence records and may regenerate them)
+		// and keep replaying to the best chain when the restarted node connects one more block
+		last1 := lastSeq(t)
+		var tip *types.Block
+		if hd, err := t.Chain.ProcGetLastHeaderMsg(); err == nil {
+			for _, b := range append(append([]*types.Block{}, env.Trunk...), blocks...) {
+				if bytes.Equal(b.Hash(env.Cfg), hd.Hash) {
+					tip = b
+				}
+			}
+		}
+		dump := t.Snapshot()
 		t.Close()
 		t.Forget()
-		if w != "" {
-			return "seqlog:" + vx.Norm(w, 40), desc + ": " + w
+		t2 := vnode.New(vnode.Options{Snap: dump})
+		defer func() { t2.Close(); t2.Forget() }()
+		if count {
+			r.Count("restarts", 1)
+		}
+		if last2 := lastSeq(t2); last2 != last1 {
+			return "seqlog-restart:last-sequence-changed", desc + fmt.Sprintf(": the last sequence number is %d before a restart and %d after it", last1, last2)
+		}
+		if w := SeqReplay(t2); w != "" {
+			return "seqlog-restart:" + vx.Norm(w, 40), desc + ": after a restart: " + w
+		}
+		if tip != nil {
+			key := string(tip.Hash(env.Cfg))
+			nb := env.extra[key]
+			if nb == nil {
+				if b, err := env.Make(tip, 1, Bits[0]); err == nil {
+					if env.extra == nil {
+						env.extra = map[string]*types.Block{}
+					}
+					env.extra[key] = b
+					nb = b
+				}
+			}
+			if nb != nil {
+				if err := t2.Deliver(vnode.Broadcast, nb, "peer"); err == nil {
+					if count {
+						r.Count("blocks_connected_after_restart", 1)
+					}
+					if last3 := lastSeq(t2); last3 != last1+1 {
+						return "seqlog-restart:next-sequence", desc + fmt.Sprintf(": the last sequence number was %d; after a restart and one more connected block it is %d", last1, last3)
+					}
+					if w := SeqReplay(t2); w != "" {
+						return "seqlog-restart:" + vx.Norm(w, 40), desc + ": after a restart and one more connected block: " + w
+					}
+				}
+			}
 		}
 		return "", ""
 	}
